@@ -475,6 +475,19 @@ def splitLoop (only : Option (List String)) (shape : List Nat) (squeeze : Bool) 
       let (bs, rest') ← splitLoop only shape squeeze rest
       .ok (bs, (n, s) :: rest')
 
+/-- **not** the shipped code: a `split_rngs` that also records a backup (key, current count) for the streams `only=` leaves alone -/
+def splitLoopBackupAll (only : Option (List String)) (shape : List Nat) (squeeze : Bool) :
+    List (String × Stream) → Except Err (List Backup × List (String × Stream))
+  | [] => .ok ([], [])
+  | (n, s) :: rest =>
+    if selectedBy only s.tag then do
+      let (b, s') ← s.splitOne shape squeeze
+      let (bs, rest') ← splitLoopBackupAll only shape squeeze rest
+      .ok (b :: bs, (n, s') :: rest')
+    else do
+      let (bs, rest') ← splitLoopBackupAll only shape squeeze rest
+      .ok ({ stream := s.tag, key := s.key, count := s.count } :: bs, (n, s) :: rest')
+
 def Rngs.split (r : Rngs) (only : Option (List String)) (shape : List Nat) (squeeze : Bool) :
     Except Err (Nat × Rngs) := do
   let (bs, streams) ← splitLoop only shape squeeze r.streams
